@@ -10,6 +10,7 @@ Ghost events in the model's output: `enter p` (run_import starts executing the m
 `done p` (import of `p` completed; observable through `module_imported_callback`), `failed p`.
 -/
 import KotoVerif.Lemmas.C18
+import KotoVerif.Lemmas.C18Fuel
 
 namespace KotoVerif.C18
 open KotoVerif.Modules KotoVerif.C18L
@@ -536,5 +537,42 @@ for the successful import). Witness: m4 started twice in one runtime. -/
 theorem rerun_after_failure_witness :
     (finalSt cfgEx fsEx 5 [opTry 4 20, opTry 4 21] init).map (fun s => s.out.count (.enter pD)) = some 2 := by
   decide
+
+/-! ## fuel_adequate — the fuel never runs out -/
+
+/-- Let `files` list every path at which the file system has a file. Then every fuel above
+`files.length` (the driver uses `files.length + 3`) suffices for every history — the run returns — and
+the result is the same for all such fuels: the "for every fuel … whenever the run returns" form of the
+theorems above loses nothing. (The import nesting depth is bounded by the number of module files that
+are not in progress: each nested execution puts one more file in progress.) -/
+theorem fuel_adequate (cfg : Cfg) (fs : FS) (files : List Path)
+    (hfiles : ∀ p, fs p ≠ none → p ∈ files) (ops : List Op) (n m : Nat)
+    (hn : files.length < n) (hm : files.length < m) :
+    runOps cfg fs n ops init = runOps cfg fs m ops init ∧ runOps cfg fs n ops init ≠ none :=
+  runOps_adequate cfg fs files hfiles n m hn hm ops init inv_init
+
+/-- the same for one nested module execution in any reachable runtime -/
+theorem fuel_adequate_unit (cfg : Cfg) (fs : FS) (files : List Path)
+    (hfiles : ∀ p, fs p ≠ none → p ∈ files) (n m : Nat) (hn : files.length < n) (hm : files.length < m)
+    (dir : List Name) (body : List TAct) (s : St) (hinv : Inv s) :
+    runUnit cfg fs n dir body s = runUnit cfg fs m dir body s ∧ runUnit cfg fs n dir body s ≠ none :=
+  runUnit_adequate cfg fs files hfiles files.length n m hn hm dir body s hinv
+    (by have := avail_le_length files s; omega)
+
+-- non-vacuity: the example file system has its files at five paths; fuel 6 and fuel 100 agree
+example : ∀ p, fsEx p ≠ none → p ∈ [pA, pAdir, pB, pC, pD] := by
+  intro p h
+  unfold fsEx at h
+  by_cases h1 : p = pA
+  · simp [h1]
+  by_cases h2 : p = pAdir
+  · simp [h2]
+  by_cases h3 : p = pB
+  · simp [h3]
+  by_cases h4 : p = pC
+  · simp [h4]
+  by_cases h5 : p = pD
+  · simp [h5]
+  simp [h1, h2, h3, h4, h5] at h
 
 end KotoVerif.C18
